@@ -40,6 +40,30 @@ let parse_farm toks : Gauge.farm_env = match toks with
 
 let eligible = Gauge.eligible
 
+(* "ok <#enabled others> ids.. <#farmers> { acct value k { pool value }*k }*": the per-pool observations of one gauge *)
+let parse_fobs toks : (BinNums.coq_Z list * ((BinNums.coq_Z * BinNums.coq_Z) * (BinNums.coq_Z * BinNums.coq_Z) list) list) option =
+  match toks with
+  | "ok" :: no :: rest ->
+    let (others, rest) = take (int_of_string no) rest in
+    (match rest with
+     | n :: rest ->
+       let rec farmers k l = if k <= 0 then [] else
+           (match l with
+            | a :: v :: kk :: tl ->
+              let (g2, tl') = groups 2 (int_of_string kk) tl in
+              ((zs a, zs v), L.map (function [p; x] -> (zs p, zs x) | _ -> failwith "fobs") g2) :: farmers (k - 1) tl'
+            | _ -> failwith "fobs farmer") in
+       Some (L.map zs others, farmers (int_of_string n) rest)
+     | [] -> failwith "fobs line")
+  | _ -> None
+
+let parse_meta toks : Gauge.gmeta option = match toks with
+  | pool :: master :: n :: rest ->
+    let (ids, _) = take (int_of_string n) rest in
+    Some { Gauge.m_pool = zs pool; m_master = bool_of_tok master; m_child = L.map zs ids }
+  | _ -> None
+let show_meta (m : Gauge.gmeta) = Printf.sprintf "pool=%s/master=%s/child=[%s]" (sz m.Gauge.m_pool) (tok_of_bool m.Gauge.m_master) (S.concat "," (L.map sz m.Gauge.m_child))
+
 let show_sx (x : Gauge.sext) = Printf.sprintf "%s/%s/%s/%s/%s/%s" (sz x.Gauge.sx_app) (sz x.Gauge.sx_denom) (sz x.Gauge.sx_avail) (tok_of_bool x.Gauge.sx_active)
     (sz x.Gauge.sx_count) (sz x.Gauge.sx_next)
 let show_srecs (l : Gauge.srec list) = S.concat "," (L.map (fun (r : Gauge.srec) -> sz r.Gauge.sr_acct ^ "@" ^ sz r.Gauge.sr_height ^ ":" ^ sz r.Gauge.sr_amount) l)
@@ -64,7 +88,11 @@ let run (path : string) =
   let bs : (int * BinNums.coq_Z) list ref = ref [] in
   let sxs : (int * Gauge.sext) list ref = ref [] in
   let senv = Hashtbl.create 8 and srecs = Hashtbl.create 8 and height = ref "0" in
-  let reset_step () = sxs := []; Hashtbl.reset senv; Hashtbl.reset srecs; height := "0"; op := []; Hashtbl.reset farm; Hashtbl.reset calc; Hashtbl.reset recv; Hashtbl.reset xenv; Hashtbl.reset lenv; Hashtbl.reset halt; res := ""; pays := [];
+  (* the liquidity metadata each gauge was CREATED with (from the message; model side), by gauge index, for the
+     whole case; the stored metadata of the gauge records (implementation side) as observed after the step *)
+  let metas : (int, Gauge.gmeta) Hashtbl.t = Hashtbl.create 8 in
+  let gms : (int, Gauge.gmeta) Hashtbl.t = Hashtbl.create 8 and fobs = Hashtbl.create 8 in
+  let reset_step () = Hashtbl.reset gms; Hashtbl.reset fobs; sxs := []; Hashtbl.reset senv; Hashtbl.reset srecs; height := "0"; op := []; Hashtbl.reset farm; Hashtbl.reset calc; Hashtbl.reset recv; Hashtbl.reset xenv; Hashtbl.reset lenv; Hashtbl.reset halt; res := ""; pays := [];
     split := None; gs := []; es := []; xs := []; bs := [] in
   let end_case () =
     if !case <> "" then begin
@@ -86,7 +114,14 @@ let run (path : string) =
     cmpf "epochs" (S.concat ";" (L.map show_epoch m.Gauge.r_epochs)) (S.concat ";" (L.map show_epoch ies));
     let ixs = L.map snd (L.rev !xs) in
     cmpf "exts" (S.concat ";" (L.map show_ext m.Gauge.r_exts)) (S.concat ";" (L.map show_ext ixs));
-    L.iter (fun (d, b) -> cmpf (Printf.sprintf "bal[%d]" d) (sz (m.Gauge.r_bal (zi d))) (sz b)) (L.rev !bs) in
+    L.iter (fun (d, b) -> cmpf (Printf.sprintf "bal[%d]" d) (sz (m.Gauge.r_bal (zi d))) (sz b)) (L.rev !bs);
+    (* the stored gauge record carries exactly the metadata of the message it was created with *)
+    Hashtbl.iter (fun i (mm : Gauge.gmeta) ->
+        match (try Some (Hashtbl.find gms i) with Not_found -> None) with
+        | Some im ->
+          bump "meta:compared";
+          if not (Gauge.meta_eqb mm im) then cmpf (Printf.sprintf "gauge[%d].meta" i) (show_meta mm) (show_meta im)
+        | None -> if i < L.length igs then cmpf (Printf.sprintf "gauge[%d].meta" i) (show_meta mm) "none") metas in
   (* custody on the implementation's observation, every denom *)
   let custody () =
     let igs = L.map snd (L.rev !gs) and ixs = L.map snd (L.rev !xs) and isx = L.map snd (L.rev !sxs) in
@@ -117,8 +152,17 @@ let run (path : string) =
        bump "op:init"
      | "create" :: d :: dep :: total :: start :: now :: dur :: funds :: meta :: c :: _ ->
        bump ("op:create:" ^ c);
+       let idx = L.length (!st).Gauge.r2_base.Gauge.r_gauges in
        let r = apply_op (Gauge.Create (zs d, zs dep, zs total, zs start, zs now, zs dur, zs funds, bool_of_tok meta)) c "create.class" in
-       ignore r;
+       (match r, !op with
+        | Base.Ok _, (_ :: _ :: _ :: _ :: _ :: _ :: _ :: _ :: _ :: _ :: mtoks) ->
+          (match parse_meta mtoks with
+           | Some mm ->
+             Hashtbl.replace metas idx mm;
+             bump (if not mm.Gauge.m_master then "meta:plain" else if mm.Gauge.m_child = [] then "meta:master:no-list"
+                   else Printf.sprintf "meta:master:listed-%d" (L.length mm.Gauge.m_child))
+           | None -> ())
+        | _ -> ());
        (match !split with
         | Some ("panic" :: _) -> cmpf "split.class" (cls_of (Gauge.split (zs dep) (zs total))) "panic"
         | Some (_ :: items) ->
@@ -151,7 +195,30 @@ let run (path : string) =
        let senvs = L.mapi (fun i _ -> try parse_recs (Hashtbl.find senv i) with Not_found -> (z0, [])) msx in
        L.iter (fun e -> if not (Gauge.senv_wf e) then cmpf "env.senv_wf" "true" "false") senvs;
        let ng = L.length m.Gauge.r_gauges and nx = L.length m.Gauge.r_exts in
-       let fenv i = try parse_farm (Hashtbl.find farm i) with Not_found -> Gauge.FarmErr in
+       (* the environment of gauge i: for a gauge created by a message of this case the MODEL computes it from the
+          message's metadata and the per-pool observations; otherwise (swap-fee gauges) the recorded one *)
+       let fenv_cache = Hashtbl.create 8 in
+       let fenv i =
+         try Hashtbl.find fenv_cache i with Not_found ->
+           let recorded () = (try parse_farm (Hashtbl.find farm i) with Not_found -> Gauge.FarmErr) in
+           let e = (match (try Some (Hashtbl.find metas i) with Not_found -> None), (try Some (Hashtbl.find fobs i) with Not_found -> None) with
+               | Some mm, Some toks ->
+                 (match parse_fobs toks with
+                  | Some (others, obs) ->
+                    let e = Gauge.farm_env_of mm others obs in
+                    (* which populations this gauge sees: master farmers with a listed child / an unlisted pool only / nothing else *)
+                    if mm.Gauge.m_master && mm.Gauge.m_child <> [] then begin
+                      let ids = Gauge.child_ids mm others in
+                      L.iter (fun (_, vals) ->
+                          let listed = L.exists (fun (p, v) -> L.exists (fun q -> BinInt.Z.eqb p q) ids && BinInt.Z.ltb z0 v) vals in
+                          let unl = L.exists (fun (p, v) -> not (L.exists (fun q -> BinInt.Z.eqb p q) ids) && BinInt.Z.ltb z0 v) vals in
+                          bump (if listed && unl then "listed-gauge:farmer:master+listed+unlisted" else if listed then "listed-gauge:farmer:master+listed"
+                                else if unl then "listed-gauge:farmer:master+unlisted-only" else "listed-gauge:farmer:master-only")) obs
+                    end;
+                    bump "env:from-message-meta"; e
+                  | None -> bump "env:from-message-meta:err"; Gauge.FarmErr)
+               | _ -> recorded ()) in
+           Hashtbl.replace fenv_cache i e; e in
        let farms = L.init ng fenv in
        let recvs = L.init ng (fun i -> match (try Hashtbl.find recv i with Not_found -> ["err"]) with
            | "ok" :: a :: _ -> Base.Ok (zs a) | "panic" :: _ -> Base.Panic | _ -> Base.Err (zi 1)) in
@@ -215,7 +282,9 @@ let run (path : string) =
                    let s = try L.assoc a el with Not_found -> z0 in
                    bump "share:checked";
                    if not (Gauge.holds_C19_share coins total s r) then
-                     pf "share" (if Gauge.kf_C19_1 coins total then "kf_C19_1" else "none")
+                     (* class C19-F1 is about the rounding of a positive share: an account WITHOUT eligible value that is
+                        paid is never inside it *)
+                     pf "share" (if BinInt.Z.ltb z0 s && Gauge.kf_C19_1 coins total then "kf_C19_1" else "none")
                        (Printf.sprintf "coins=%s_total=%s_s=%s_payout=%s" (sz coins) (sz total) (sz s) (sz r))) ipays
              end
            | _ -> ()) calc;
@@ -315,11 +384,13 @@ let run (path : string) =
   L.iter (fun line ->
       match tokens line with
       | "case" :: id :: kind :: _ ->
-        end_case (); case := id; step := -1; nt := false; Buffer.clear sig_; Buffer.add_string sig_ kind; reset_step ();
+        end_case (); case := id; step := -1; nt := false; Buffer.clear sig_; Buffer.add_string sig_ kind; reset_step (); Hashtbl.reset metas;
         pgs := []; pxs := []; pbs := []; psx := []; bump ("kind:" ^ kind)
       | "op" :: rest -> op := rest; Buffer.add_string sig_ line
       | "env" :: k :: _ -> bump ("env:" ^ k); Buffer.add_string sig_ line
       | "farm" :: i :: rest -> Hashtbl.replace farm (int_of_string i) rest; Buffer.add_string sig_ line
+      | "fobs" :: i :: rest -> Hashtbl.replace fobs (int_of_string i) rest
+      | "gm" :: i :: rest -> (match parse_meta rest with Some mm -> Hashtbl.replace gms (int_of_string i) mm | None -> ())
       | "calc" :: i :: rest -> Hashtbl.replace calc (int_of_string i) rest
       | "recv" :: i :: rest -> Hashtbl.replace recv (int_of_string i) rest; Buffer.add_string sig_ line
       | "xenv" :: i :: rest -> Hashtbl.replace xenv (int_of_string i) rest; Buffer.add_string sig_ line
